@@ -4,3 +4,8 @@
 pub(crate) fn verif_parse_num(s: &[u8]) -> Result<Num, hifijson::Error> {
     parse_num(&mut SliceLexer::new(s))
 }
+/// run the real string reader on the text after the opening quote
+#[cfg(kani)]
+pub(crate) fn verif_parse_string(s: &[u8], bytes: bool) -> Result<Vec<u8>, hifijson::Error> {
+    parse_string(&mut SliceLexer::new(s), bytes)
+}
